@@ -50,12 +50,23 @@ def gen_sources(d):
          '#define MSZ(T, m) sizeof(((T*) 0)->m)', 'int main(void) {', '  printf("word %d\\n", (int) sizeof(embedded_pairing_core_bigint_word_t));']
     cpp = ['#include <stdio.h>', '#include <stddef.h>', '#define private public', '#include "bls12_381/pairing.hpp"', '#include "wkdibe/api.hpp"', '#include "lqibe/api.hpp"', '#undef private',
            '#define MSZ(T, m) sizeof(((T*) 0)->m)', 'int main(void) {', '  printf("word %d\\n", (int) sizeof(embedded_pairing::core::BigInt<256>::word_t));']
+    # a C++ member that no longer exists (renamed or removed) must not stop the probe from compiling: it is reported as "absent", and the
+    # struct's size / alignment and the other members' offsets decide whether the layouts still agree
+    probes = []
+    for i, (ct, cppt, members) in enumerate(STRUCTS):
+        for j, (cm, cppm) in enumerate(members):
+            probes.append('template <typename T> static auto o_%d_%d(int) -> decltype((void) sizeof(((T*) 0)->%s), (long) 0) { return (long) __builtin_offsetof(T, %s); }' % (i, j, cppm, cppm))
+            probes.append('template <typename T> static long o_%d_%d(...) { return -1; }' % (i, j))
+            probes.append('template <typename T> static auto s_%d_%d(int) -> decltype((void) sizeof(((T*) 0)->%s), (long) 0) { return (long) sizeof(((T*) 0)->%s); }' % (i, j, cppm, cppm))
+            probes.append('template <typename T> static long s_%d_%d(...) { return -1; }' % (i, j))
+    k = cpp.index('int main(void) {')
+    cpp[k:k] = probes
     for i, (ct, cppt, members) in enumerate(STRUCTS):
         c.append('  printf("%s sizeof %%zu alignof %%zu\\n", sizeof(%s), (size_t) _Alignof(%s));' % (ct, ct, ct))
         cpp.append('  { typedef %s T%d; printf("%s sizeof %%zu alignof %%zu\\n", sizeof(T%d), (size_t) alignof(T%d));' % (cppt, i, ct, i, i))
-        for cm, cppm in members:
+        for j, (cm, cppm) in enumerate(members):
             c.append('  printf("%s.%s offset %%zu size %%zu\\n", offsetof(%s, %s), MSZ(%s, %s));' % (ct, cm, ct, cm, ct, cm))
-            cpp.append('    printf("%s.%s offset %%zu size %%zu\\n", (size_t) __builtin_offsetof(T%d, %s), MSZ(T%d, %s));' % (ct, cm, i, cppm, i, cppm))
+            cpp.append('    if (o_%d_%d<T%d>(0) < 0) printf("%s.%s absent\\n"); else printf("%s.%s offset %%ld size %%ld\\n", o_%d_%d<T%d>(0), s_%d_%d<T%d>(0));' % (i, j, i, ct, cm, ct, cm, i, j, i, i, j, i))
         cpp.append('  }')
     c.append('  printf("coeffs_count %zu\\n", sizeof(((embedded_pairing_bls12_381_g2prepared_t*) 0)->coeffs) / sizeof(((embedded_pairing_bls12_381_g2prepared_t*) 0)->coeffs[0]));')
     cpp.append('  printf("coeffs_count %zu\\n", (size_t) embedded_pairing::bls12_381::G2Prepared::num_coeffs);')
@@ -93,6 +104,11 @@ def layout(ctx, d):
                 ctx.violation('layout:word-size:%s' % wordcfg, 'word size C=%s C++=%s expected %s' % (da.get('word'), db.get('word'), exp_word))
             for k in sorted(set(da) | set(db)):
                 cfg = '%s/%s' % (wordcfg, asmcfg)
+                if db.get(k) == 'absent':
+                    # the C++ type has no member of the name the C field mirrors (renamed or removed): not a layout statement by itself -
+                    # the struct's sizeof / alignof lines and the remaining members decide
+                    ctx.event('layout-member-without-c++-namesake', '%s/%s' % (cfg, k))
+                    continue
                 if da.get(k) != db.get(k):
                     ctx.violation('layout:%s' % k, '%s: C header says "%s", C++ type says "%s" (%s)' % (k, da.get(k), db.get(k), cfg), {'config': cfg, 'entry': k, 'c': da.get(k), 'cpp': db.get(k)})
                 ctx.event('layout', '%s/%s' % (cfg, k))
